@@ -390,6 +390,31 @@ def run_case(case, rec):
         if status is not None and status != "500":
             fails.append(("C09|http-status|%s|nonfault|%s!=500" % (prot, status),
                           "%s: HTTP %s for a non-Fault exception" % (where, status)))
+    # the spyne client (protocols that can parse faults) must surface the same fault
+    if prot in ("soap11", "soap12") and tr == "pipeline":
+        del calls[:]
+        creq, cout, cres, cerr = drive.loopback_call(app, "m0", ["x"])
+        from spyne.model.fault import Fault as _F
+        if not isinstance(cerr, _F):
+            fails.append(("C09|client-no-fault|%s|%s" % (prot, raised["kind"]),
+                          "%s: the spyne client returned %r / raised %r instead of a Fault" % (where, cres, cerr)))
+        else:
+            want = exp if raised["kind"] == "fault" else ("Server", "Internal Error", None)
+            ccode = cerr.faultcode.split(":", 1)[-1] if prot == "soap11" else cerr.faultcode
+            if prot == "soap12":
+                head, _, rest = ccode.partition(".")
+                head = {"Sender": "Client", "Receiver": "Server"}.get(head.split(":")[-1], head)
+                ccode = head + ("." + rest if rest else "")
+            if ccode != want[0]:
+                fails.append(("C09|client-code-differs|%s|%s" % (prot, _code_shape(want[0])),
+                              "%s: raised code %r, the spyne client sees %r" % (where, want[0], cerr.faultcode)))
+            if (cerr.faultstring or "").strip() != (want[1] or "").strip():
+                fails.append(("C09|client-message-differs|%s|%s" % (prot, _msg_class(want[1])),
+                              "%s: raised message %r, the spyne client sees %r" % (where, want[1], cerr.faultstring)))
+            if raised["kind"] == "exc":
+                blob = repr((cerr.faultcode, cerr.faultstring, getattr(cerr, "faultactor", None))).encode("utf8")
+                if any(f in blob for tok in raised["tokens"] for f in token_forms(tok)):
+                    fails.append(("C09|leak|%s|client" % prot, "%s: a token reached the client fault %r" % (where, cerr)))
     rec.case(case, failures=fails, nontrivial=_nt(case),
              classes=["prot:" + prot, "transport:" + tr, "kind:" + raised["kind"],
                       "cls:" + raised.get("cls", raised.get("etype", "?"))])
